@@ -45,11 +45,11 @@ def walk(node):
         if node.ttype == 'operator-prefix':
             return ('neg', walk(node.right))
         if node.ttype == 'operator-postfix':
-            return fold_pct(walk(node.left))
+            return ('pct', walk(node.left))
         r = node.right
         if node.tvalue == '*' and isinstance(r, A.OperandNode) and not isinstance(r, A.RangeNode) \
                 and isinstance(r.tvalue, float) and r.tvalue == 0.01:
-            return fold_pct(walk(node.left))       # the library's encoding of a postfix %
+            return ('pct', walk(node.left))       # the library's encoding of a postfix % (a literal's % is folded by the tokenizer)
         return ('bin', str(node.tvalue), walk(node.left), walk(node.right))
     if isinstance(node, A.RangeNode):
         return split_ref(str(node.tvalue))
@@ -154,7 +154,7 @@ def canon(a):
     if k == 'neg':
         return ('neg', canon(a['x']))
     if k == 'pct':
-        return fold_pct(canon(a['x']))
+        return ('pct', canon(a['x']))          # Canon has already folded a % written directly after a literal
     if k == 'paren':
         return canon(a['x'])
     raise xl.MachineryError(f'unknown node {k}')
